@@ -549,7 +549,7 @@ def main(argv):
                 known_lines.append('KNOWN-FINDING: property=%s %s: %s' % (pid, h.known, kf['what']))
         if h.known and r['verdict'] == 'PASS' and h.known in chk.known_open:
             chk.notes.append('known finding %s no longer reproduces in %s (its region now satisfies the assertions)' % (h.known, h.fn))
-    for ln in known_lines:
+    for ln in sorted(set(known_lines)):
         log(ln)
     for n in chk.notes:
         log('[%s] note: %s' % (pid, n))
